@@ -59,6 +59,9 @@ pub struct World {
     pub obs_level: ObsLevel,
     pub dead: bool,
     pub scenario: usize,
+    /// calls of the transaction in progress (kept outside the guarded closure so that a panic
+    /// still leaves a record of what was being executed)
+    pub inflight: Vec<J>,
 }
 
 impl World {
@@ -71,6 +74,7 @@ impl World {
             obs_level,
             dead: false,
             scenario,
+            inflight: vec![],
         };
         w.log.push(json!({"ev":"reset","enc":enc_name(enc),"scn":scenario,"family":family}));
         w
@@ -138,9 +142,11 @@ impl World {
             }
             Err(p) => {
                 ev["res"] = json!(panic_msg(p));
+                ev["inflight"] = J::Array(std::mem::take(&mut self.inflight));
                 self.dead = true;
             }
         }
+        self.inflight.clear();
         self.log.push(ev);
     }
 
@@ -171,6 +177,7 @@ impl World {
         let ev = json!({"ev":"commit","r":r+1,"iso":isoj});
         let level = self.obs_level;
         self.guarded(r, ev, |w| {
+            let w_inflight = &mut w.inflight;
             let doc = &mut w.reps[r];
             let mut tx = match &iso {
                 Some(h) => doc.transaction_at(PatchLog::inactive(), h).expect("patch log"),
@@ -187,6 +194,7 @@ impl World {
                     }
                 };
                 let before = if level == ObsLevel::View { proj::view(&tx, None) } else { J::Null };
+                w_inflight.push(call.clone());
                 let out = calls::exec(&mut tx, &call);
                 let mut rec = call.clone();
                 rec["res"] = out["res"].clone();
@@ -379,5 +387,69 @@ impl World {
                 .collect();
             json!({"res":"ok","got":got})
         });
+    }
+}
+
+impl World {
+    /// Re-execute one logged event (used to replay recorded scenarios).
+    pub fn replay_event(&mut self, e: &J, rng: &mut Rng) {
+        let r = e["r"].as_u64().unwrap_or(1) as usize - 1;
+        let hashes = |j: &J, w: &World| -> Vec<ChangeHash> {
+            j.as_array()
+                .map(|a| a.iter().filter_map(|h| w.known.get(h.as_str().unwrap_or("")).map(|c| c.hash())).collect())
+                .unwrap_or_default()
+        };
+        match e["ev"].as_str().unwrap_or("") {
+            "newrep" => {
+                self.add_rep(e["actor"].as_u64().unwrap_or(1) as u8);
+            }
+            "commit" => {
+                if e.get("empty").and_then(|x| x.as_bool()) == Some(true) {
+                    self.empty_commit(r);
+                } else {
+                    let mut calls: Vec<J> = e.get("calls").and_then(|c| c.as_array()).cloned().unwrap_or_default();
+                    if let Some(inf) = e.get("inflight").and_then(|c| c.as_array()) {
+                        calls = inf.clone();
+                    }
+                    let calls: Vec<J> = calls
+                        .into_iter()
+                        .map(|mut c| {
+                            if let Some(m) = c.as_object_mut() {
+                                m.remove("before");
+                                m.remove("after");
+                                m.remove("res");
+                                m.remove("ret");
+                            }
+                            c
+                        })
+                        .collect();
+                    let iso = e["iso"].as_array().and_then(|a| a.first()).map(|h| hashes(h, self));
+                    self.commit(r, rng, &Profile::all(), 0, Some(calls), iso);
+                }
+            }
+            "deliver" => {
+                let batch: Vec<String> = e["batch"].as_array().unwrap().iter().map(|h| h.as_str().unwrap().to_string()).collect();
+                self.deliver(r, e["via"].as_str().unwrap_or("apply"), &batch);
+            }
+            "merge" => self.merge(r, e["from"].as_u64().unwrap_or(1) as usize - 1),
+            "fork" => {
+                self.fork(e["from"].as_u64().unwrap_or(1) as usize - 1, e["actor"].as_u64().unwrap_or(1) as u8);
+            }
+            "forkat" | "forkat_err" => {
+                let h = hashes(&e["heads"], self);
+                self.fork_at(e["from"].as_u64().unwrap_or(1) as usize - 1, &h, e.get("actor").and_then(|a| a.as_u64()).unwrap_or(17) as u8);
+            }
+            "setactor" => self.set_actor(r, e["actor"].as_u64().unwrap_or(1) as u8),
+            "saveload" => self.save_load(r, e["deflate"].as_bool().unwrap_or(true), e["retain"].as_bool().unwrap_or(true)),
+            "missing" => {
+                let h = hashes(&e["hs"], self);
+                self.probe_missing(r, &h);
+            }
+            "getchanges" => {
+                let h = hashes(&e["have"], self);
+                self.probe_getchanges(r, &h);
+            }
+            _ => {}
+        }
     }
 }
